@@ -1,12 +1,28 @@
 (** C06 — subgraph search returns exactly the label-preserving monomorphisms.
     Statements only; every proof is [exact <lemma of proof/C06_*.v>].
-    Vocabulary (lib/C06_Spec.v, definitions only): [is_mono_on], [is_mono], [gconn],
-    [separating], [vf2_contract], [oracle_ok], [limit]; model: model/C06_Model.v.
-    The model is a pure function of its inputs, so "without modifying its inputs" holds in
-    the model by construction; for the Python code the adapter deep-compares host and
-    pattern before/after every call (monitor, listed under TESTED_NOT_PROVED). *)
-From Coq Require Import List NArith Bool Permutation SetoidList Relations.
-From SK Require Import lib.LGraph lib.Mono model.C06_Model lib.C06_Spec proof.C06_All.
+
+    Vocabulary (lib/C06_Spec.v, definitions only, written out in section 0 below):
+    [is_mono_on] / [is_mono], [gconn], [separating], [vf2_contract], [oracle_ok],
+    [limit], [gwf].  Model: model/C06_Model.v; [find enum c H P] is the public entry
+    point [SubgraphSearchEngine.find_subgraph_mappings] (what the correspondence
+    evaluates through [run_set] / [run_list]); [Cfg strategy max_results threshold
+    strict_cc_count pre_filter] with strategy 0 = all, 1 = comp, 2 = bt and
+    max_results 0 = None.
+
+    networkx VF2 is not modelled: it is the parameter [enum].  Wherever a theorem
+    needs it, the premise [vf2_contract] / [oracle_ok] says "this enumeration call
+    returns a duplicate-free listing of exactly the valid monomorphisms" (mappings
+    compared as sets of pairs, as Python dicts are).  The harness monitors that
+    premise on every case ([table_ok]), and section 1 shows that the verified
+    enumerator of lib/Mono.v satisfies it, so with [enum := monos_on H P] (what
+    [run_set] evaluates) no premise about VF2 is left.
+
+    "Without modifying its inputs": the model is a pure function, so this clause
+    holds in the model by construction; for the Python code the adapter
+    deep-compares host and pattern before/after every call (TESTED_NOT_PROVED). *)
+From Coq Require Import List NArith Bool Arith Permutation SetoidList Relations.
+From SK Require Import lib.LGraph lib.Mono model.C06_Model lib.C06_Spec
+  proof.C06_All proof.C06_Comp proof.C06_Comps proof.C06_CompSem proof.C06_Main.
 Import ListNotations.
 
 (** ** 0. What the specification predicates say, written out *)
@@ -25,10 +41,23 @@ Theorem C06_spec_meaning : forall (H P : graph) (hn pn : list N) (m : mapping),
 Proof. exact is_mono_on_meaning. Qed.
 Print Assumptions C06_spec_meaning.
 
+(** [comps] (the model of nx.connected_components) lists exactly the connectivity
+    classes ([gconn] = reflexive-transitive closure of adjacency): "component" in the
+    theorems below means what it should *)
+Theorem C06_components : forall g : graph, gwf g ->
+  (forall c, In c (comps g) ->
+     c <> [] /\ NoDup c /\ incl c (node_ids g) /\
+     forall x y, In x c -> (In y c <-> clos_refl_trans N (fun a b => LGraph.adj g a b <> None) x y)) /\
+  (forall x, In x (node_ids g) -> exists c, In c (comps g) /\ In x c) /\
+  (forall i j ci cj x, nth_error (comps g) i = Some ci -> nth_error (comps g) j = Some cj ->
+     In x ci -> In x cj -> i = j).
+Proof. exact (fun g Hg => conj (comps_class g Hg) (conj (comps_cover g Hg) (comps_disjoint g Hg))). Qed.
+Print Assumptions C06_components.
+
 (** ** 1. Exhaustive strategy *)
 (** no limits ([max_results] None, threshold not below the number of matches): the result
-    is sound, complete and duplicate-free (mappings compared as sets of pairs), under the
-    VF2 contract for the one enumeration call the strategy makes *)
+    is sound, complete and duplicate-free, under the VF2 contract for the one enumeration
+    call the strategy makes *)
 Theorem C06_all_exact : forall (enum : list N -> list N -> list mapping) (T : N) (strict : bool) (H P : graph),
   vf2_contract enum H P (node_ids H) (node_ids P) ->
   (lenN (enum (node_ids H) (node_ids P)) <= T)%N ->
@@ -39,16 +68,65 @@ Theorem C06_all_exact : forall (enum : list N -> list N -> list mapping) (T : N)
 Proof. exact all_exact. Qed.
 Print Assumptions C06_all_exact.
 
-(** the contract is satisfiable, and the enumerator the harness monitors VF2 against meets
-    it: with [enum := monos_on H P] (what [run_set] evaluates) no premise about VF2 is left *)
+(** the contract is satisfiable, and the enumerator the harness monitors VF2 against meets it *)
 Theorem C06_enumerator_meets_contract : forall (H P : graph), gwf P ->
-  forall hn pn, NoDup hn -> NoDup pn -> vf2_contract (monos_on H P) H P hn pn.
+  forall hn pn, NoDup hn -> NoDup pn ->
+  (forall m, In m (monos_on H P hn pn) -> is_mono_on H P hn pn m) /\
+  (forall m, is_mono_on H P hn pn m -> exists m', In m' (monos_on H P hn pn) /\ Permutation m m') /\
+  NoDupA (@Permutation (N * N)) (monos_on H P hn pn).
 Proof. exact monos_on_contract. Qed.
 Print Assumptions C06_enumerator_meets_contract.
 
-(** ** 4. Result limits, exhaustive strategy: for every [max_results] and [threshold] the
-    public entry point returns the prefix of length min(max_results, #matches) of the
-    unlimited listing, or [] when that length exceeds the threshold — nothing else *)
+Theorem C06_enumerator_oracle_ok : forall (H P : graph), gwf H -> gwf P -> oracle_ok (monos_on H P) H P.
+Proof. exact monos_on_oracle_ok. Qed.
+Print Assumptions C06_enumerator_oracle_ok.
+
+(** ** 2. Component-aware strategy, no limits (for every threshold from some T0 on).
+    What the code does, in this order:
+    - pattern has components, host has MORE components and strict_cc_count is set: [] (the
+      documented guard of that parameter; the property text does not mention it — the
+      text's claim is the third case, which is what strict_cc_count = False gives);
+    - host has FEWER components than the pattern: exactly all monomorphisms;
+    - otherwise: exactly the monomorphisms that send different pattern components into
+      different host components ([separating]: two images connected in the host only if
+      the two pattern nodes are connected in the pattern). *)
+Theorem C06_comp_spec : forall (enum : list N -> list N -> list mapping) (strict : bool) (H P : graph),
+  gwf H -> gwf P -> oracle_ok enum H P ->
+  exists T0 : N, forall T : N, (T0 <= T)%N ->
+  let R := find enum (Cfg 1 0 T strict false) H P in
+  let hcc := length (comps H) in
+  let pcc := length (comps P) in
+  if (0 <? pcc) && (pcc <? hcc) && strict then R = []
+  else if hcc <? pcc then
+    (forall m, In m R -> is_mono H P m) /\
+    (forall m, is_mono H P m -> exists m', In m' R /\ Permutation m m')
+  else
+    (forall m, In m R ->
+       is_mono H P m /\
+       forall p h p' h', In (p, h) m -> In (p', h') m -> gconn H h h' -> gconn P p p') /\
+    (forall m, is_mono H P m ->
+       (forall p h p' h', In (p, h) m -> In (p', h') m -> gconn H h h' -> gconn P p p') ->
+       exists m', In m' R /\ Permutation m m').
+Proof. exact comp_spec. Qed.
+Print Assumptions C06_comp_spec.
+
+(** ** 3. Fallback strategy, no limits: the component-aware result if it is non-empty,
+    the exhaustive result otherwise (no premise: this is about the dispatch only; what
+    the two results are is sections 1 and 2) *)
+Theorem C06_bt_spec : forall (enum : list N -> list N -> list mapping) (strict : bool) (H P : graph),
+  exists T0 : N, forall T : N, (T0 <= T)%N ->
+  find enum (Cfg 2 0 T strict false) H P =
+  match find enum (Cfg 1 0 T strict false) H P with
+  | [] => find enum (Cfg 0 0 T strict false) H P
+  | primary => primary
+  end.
+Proof. exact bt_spec_unlimited. Qed.
+Print Assumptions C06_bt_spec.
+
+(** ** 4. Result limits *)
+(** exhaustive strategy, every [max_results] and [threshold]: the prefix of length
+    min(max_results, #matches) of the unlimited listing, or [] when that length exceeds
+    the threshold — nothing else *)
 Theorem C06_limits_all : forall (enum : list N -> list N -> list mapping) (maxr thr : N) (strict : bool) (H P : graph),
   find enum (Cfg 0 maxr thr strict false) H P =
   let U := enum (node_ids H) (node_ids P) in
@@ -56,3 +134,46 @@ Theorem C06_limits_all : forall (enum : list N -> list N -> list mapping) (maxr 
   if (thr <? k)%N then [] else firstn (N.to_nat k) U.
 Proof. exact find_all_limits. Qed.
 Print Assumptions C06_limits_all.
+
+(** every strategy (no premise about VF2: the order of the list is whatever the oracle's
+    order induces).  U = the result without limits.  Either the result is exactly
+    [limit max_results threshold U] (prefix of length min, emptied past the threshold), or —
+    component-aware / fallback only — the documented enumeration guard fired: some pattern
+    component has more than [threshold] embeddings into the large-enough host components;
+    then comp returns [] and bt returns either [] or the limited exhaustive result. *)
+Theorem C06_limits : forall (enum : list N -> list N -> list mapping) (strat : N) (strict : bool) (H P : graph),
+  exists T0 : N, forall T : N, (T0 <= T)%N ->
+  let U := find enum (Cfg strat 0 T strict false) H P in
+  let Uall := find enum (Cfg 0 0 T strict false) H P in
+  forall maxr thr : N,
+  let R := find enum (Cfg strat maxr thr strict false) H P in
+  let k := fun V : list mapping => if (maxr =? 0)%N then lenN V else N.min maxr (lenN V) in
+  let lim := fun V : list mapping => if (thr <? k V)%N then [] else firstn (N.to_nat (k V)) V in
+  R = lim U \/
+  (strat <> 0%N /\
+   (exists pc, In pc (comps P) /\
+      N.lt thr (lenN (flat_map (fun ih => map (pair (fst ih)) (enum (snd ih) pc))
+                        (filter (fun ih => length pc <=? length (snd ih)) (index_from 0 (comps H)))))) /\
+   (R = [] \/ R = lim Uall)).
+Proof. exact limits. Qed.
+Print Assumptions C06_limits.
+
+(** the second alternative is real: threshold 3, unlimited component-aware result of
+    exactly 3 mappings (not past the threshold), yet [] is returned because pattern
+    component {C10} has 4 embeddings (host C1-C2-C3 . C4-O5, pattern C10 . O11).  This is
+    the docstring's "enumeration guard"; the harness oracle accepts it (ASSUMPTIONS). *)
+Theorem C06_limits_guard_reachable :
+  find (monos_on Hx Px) (Cfg 1 0 3 true false) Hx Px = [] /\
+  limit 0 3 (find (monos_on Hx Px) (Cfg 1 0 5000 true false) Hx Px) =
+    find (monos_on Hx Px) (Cfg 1 0 5000 true false) Hx Px /\
+  length (find (monos_on Hx Px) (Cfg 1 0 5000 true false) Hx Px) = 3 /\
+  find (monos_on Hx Px) (Cfg 2 0 3 true false) Hx Px = [].
+Proof. exact guard_reachable. Qed.
+Print Assumptions C06_limits_guard_reachable.
+
+(** the cheap pre-filter can only empty the result, never change it otherwise *)
+Theorem C06_prefilter_only_empties : forall (enum : list N -> list N -> list mapping) (c : cfg) (H P : graph),
+  find enum c H P = [] \/
+  find enum c H P = find enum (Cfg (c_strat c) (c_maxr c) (c_thr c) (c_strict c) false) H P.
+Proof. exact prefilter_only_empties. Qed.
+Print Assumptions C06_prefilter_only_empties.
